@@ -25,7 +25,7 @@ impl C07 {
                 for extra in [format!("{0}{1}{0}", sy.v, sy.c), format!("{0}{0}{1}", sy.v, sy.c), format!("{0}{1}{1}", sy.v, sy.c), format!("{0}-{0}{1}", sy.v, sy.c), format!("{0}{1} {0}", sy.v, sy.c), format!("{1}{0}{1}{0}", sy.v, sy.c)] {
                     menu.push(extra);
                 }
-                sets.push(MultiSet { l, name: format!("stores<=3 over {} F1 titles", menu.len()), menu, lo: 0, hi: 3, queries: crate::doms::all_strings(&f1, 0, 3), limits: None, distinct_ratings: true, huge_ratings: false, block: 30 });
+                sets.push(MultiSet { l, name: format!("stores<=3 over {} F1 titles", menu.len()), menu, lo: 0, hi: 3, queries: crate::doms::all_strings(&f1, 0, 3), limits: None, distinct_ratings: true, huge_ratings: false, ratings: None, block: 30 });
             }
         }
         if tier == Tier::Quick {
@@ -43,15 +43,18 @@ impl C07 {
             for l in LANGS {
                 let lex = crate::doms::lex_strings(l);
                 let menu: Vec<String> = vec![lex[3].clone(), lex[4].clone(), lex[5].clone(), format!("{} {}", lex[0], lex[4]), format!("{}-{}", lex[7], lex[8]), lex[9].clone()];
-                sets.push(MultiSet { l, name: "stores of 4 over 6 lexicon titles".into(), menu, lo: 4, hi: 4, queries: crate::doms::word_queries(&lex, 1), limits: None, distinct_ratings: true, huge_ratings: false, block: 20 });
+                sets.push(MultiSet { l, name: "stores of 4 over 6 lexicon titles".into(), menu, lo: 4, hi: 4, queries: crate::doms::word_queries(&lex, 1), limits: None, distinct_ratings: true, huge_ratings: false, ratings: None, block: 20 });
             }
         }
         // the same small stores with ratings at the top of the usize range (distinct values on both sides of 2^63)
         for l in [L::None, L::En] {
             let lex = crate::doms::lex_strings(l);
             let menu: Vec<String> = vec![lex[4].clone(), lex[5].clone(), lex[6].clone(), format!("{} {}", lex[4], lex[9])];
-            sets.push(MultiSet { l, name: "stores<=3 over 4 lexicon titles, ratings around 2^63".into(), menu, lo: 2, hi: 3, queries: crate::doms::word_queries(&lex, 1), limits: None, distinct_ratings: true, huge_ratings: true, block: 10 });
+            sets.push(MultiSet { l, name: "stores<=3 over 4 lexicon titles, ratings around 2^63".into(), menu, lo: 2, hi: 3, queries: crate::doms::word_queries(&lex, 1), limits: None, distinct_ratings: true, huge_ratings: true, ratings: None, block: 10 });
         }
+        // ... and with ordinary ratings next to ratings beyond 2^63 (every assignment of the three ratings to the titles,
+        // every insertion order): a comparator that subtracts, casts or negates scores wraps for some pairs only
+        sets.extend(mixed_rating_sets());
         C07 { big: tier.pick(vec![L::None, L::En], LANGS.to_vec()), sets, perms: (0..=5).map(permutations).collect() }
     }
 }
